@@ -264,6 +264,13 @@ func ruleT7h(c *Ctx) {
 			if s, ok := constStr(p.TypesInfo, x); ok && strings.EqualFold(s, "0x") {
 				have[s] = true
 			}
+		case *ast.Ident:
+			// a named constant holding the prefix
+			if _, isConst := p.TypesInfo.Uses[x].(*types.Const); isConst {
+				if s, ok := constStr(p.TypesInfo, x); ok && strings.EqualFold(s, "0x") {
+					have[s] = true
+				}
+			}
 		case *ast.CallExpr:
 			if fn, ok := calleeOf(p.TypesInfo, x).(*types.Func); ok && (fn.Name() == "ToLower" || fn.Name() == "ToUpper" || fn.Name() == "EqualFold") {
 				folds = true
